@@ -774,8 +774,11 @@ class OpRunner:
         decode error, short read, cpp missing, cpp failing."""
         a = self.a
         sim = op.get("obj", "P1") != "P0"
-        parser = self.obj(op.get("obj", "P1"), lambda: self.new_parser(sim))
-        a.objs["_cur_parser"] = parser
+        if op.get("default_parser"):
+            parser = None  # let parse_file supply its own (today: a new CParser per call)
+        else:
+            parser = self.obj(op.get("obj", "P1"), lambda: self.new_parser(sim))
+            a.objs["_cur_parser"] = parser
         self.w.install_io_seam()
         text = op_text(op)
         filename = op.get("filename", "")
